@@ -19,12 +19,20 @@
 (* (SetExons / Add on a transcript, Add on a bare Exons value with spare    *)
 (* capacity).                                                               *)
 (*                                                                          *)
+(* One level up, a gene.Gene holds features (transcripts) located on it; a  *)
+(* feature of a gene is <<start, len, loc>> as well (0 = the gene the call  *)
+(* is made on).  SetFeaturesRet(feats, len, fs) is gene.Gene.SetFeatures;   *)
+(* the "gene" machine explores all histories of accepted / rejected calls.  *)
+(*                                                                          *)
 (* Variant selects deliberately wrong variants that TLC must refute:        *)
 (*   "spec"       the specification                                         *)
 (*   "asfound"    Add sorts the appended slice in place (gene.go:362-363):  *)
 (*                with spare capacity the old slice shares the array        *)
 (*   "overlap_le" overlap test with <= (abutting exons rejected)            *)
 (*   "utr_swap"   UTRs taken from the same end on both strands              *)
+(*   "glen_early" SetFeatures accumulates the maximum end in the gene's     *)
+(*                length while it is still validating: a rejected call      *)
+(*                leaves the length of the features it had looked at        *)
 (***************************************************************************)
 EXTENDS Integers, Sequences, FiniteSets, TLC, Json, IOUtils, SequencesExt, FiniteSetsExt
 
@@ -37,6 +45,8 @@ CONSTANTS
   LH,          \* update machine: exon universe lies in [0, LH)
   MaxArgsH,    \* update machine: exons per call
   MaxSpare,    \* update machine: spare capacity of a slice
+  LG,          \* gene machine: features lie in [0, LG)
+  MaxFeats,    \* gene machine: features per SetFeatures call
   Kinds        \* which case kinds / machines to explore
 
 Limit == 1000            \* feature.go: "panic if the feature chain is deeper than 1000 links"
@@ -46,6 +56,8 @@ ErrLocDiff  == "exons location differ"
 ErrNewLoc   == "new exons locations differ from old ones"
 ErrNotTr    == "exon location is not the transcript"
 ErrNoZero   == "no exon with a zero start"
+ErrGeneLoc  == "transcript location does not match the gene"
+ErrGeneZero == "no transcript with 0 start on gene"
 
 (***************************************************************************)
 (* Exons                                                                    *)
@@ -138,6 +150,44 @@ PartitionOfPositions(es, is, len) ==
   LET c == Cells(es) \o Cells(is)
   IN /\ UNION {c[i] : i \in 1..Len(c)} = 0..(len - 1)
      /\ \A i, j \in 1..Len(c) : i < j => c[i] \cap c[j] = {}
+
+(***************************************************************************)
+(* The gene level.  gene.Gene.SetFeatures(fs...) walks fs in argument order: *)
+(* a feature whose Location is not the gene ends the call at once; then the *)
+(* smallest Start must be 0 (so an empty list is rejected, too); then       *)
+(* length = (largest End, at least 0) - 0 and the features are held in the  *)
+(* order given (they may overlap and repeat).  A rejected call changes      *)
+(* nothing: Features(), Start(), End() and Len() are as before.             *)
+(***************************************************************************)
+GeneEnd(fs) == Max({0} \cup {EndOf(fs[i]) : i \in 1..Len(fs)})
+GeneClass(fs) ==
+  IF \E i \in 1..Len(fs) : fs[i][3] # 0 THEN ErrGeneLoc
+  ELSE IF fs = <<>> \/ Min({fs[i][1] : i \in 1..Len(fs)}) # 0 THEN ErrGeneZero
+  ELSE ""
+\* the features the loop of SetFeatures has accumulated when a rejected call returns
+GeneSeen(fs) ==
+  LET foreign == {i \in 1..Len(fs) : fs[i][3] # 0}
+  IN IF foreign = {} THEN fs ELSE SubSeq(fs, 1, Min(foreign) - 1)
+\* err := g.SetFeatures(fs...) on a gene holding feats with length len
+SetFeaturesRet(feats, len, fs) ==
+  LET err == GeneClass(fs)
+  IN [err |-> err,
+      feats |-> IF err = "" THEN fs ELSE feats,
+      len |-> IF err = "" THEN GeneEnd(fs) - 0
+              ELSE IF Variant = "glen_early" THEN GeneEnd(GeneSeen(fs)) ELSE len]
+\* Start(), End() of a gene at an offset on its chromosome
+GeneSE(off, len) == <<off, off + len>>
+
+\* independent characterisations (no Max/Min): an acceptable argument list ...
+GeneAcceptable(fs) ==
+  /\ \A i \in 1..Len(fs) : fs[i][3] = 0 /\ fs[i][1] >= 0
+  /\ \E i \in 1..Len(fs) : fs[i][1] = 0
+\* ... and a gene whose bounds agree with the features it holds: all of them are located on
+\* it and lie within [0, len), one starts at 0 and one ends at len; no features, no length
+GeneAgrees(fs, len) ==
+  /\ \A i \in 1..Len(fs) : fs[i][3] = 0 /\ 0 <= fs[i][1] /\ fs[i][2] >= 0 /\ EndOf(fs[i]) <= len
+  /\ IF fs = <<>> THEN len = 0
+     ELSE (\E i \in 1..Len(fs) : fs[i][1] = 0) /\ (\E i \in 1..Len(fs) : EndOf(fs[i]) = len)
 
 (***************************************************************************)
 (* Coding regions, as <<start, end>> relative to the transcript; <<>> is    *)
@@ -242,16 +292,18 @@ UtrChains == {ch \in UNION {ChainsOf(d) : d \in 1..3} : \A i \in 1..Len(ch) : ch
 (*   "conv"  cs = a position                                                *)
 (*   "bare"  the update machine on a bare Exons value s (s, err = s.Add())  *)
 (*   "tr"    the update machine on a transcript (SetExons, Exons().Add())   *)
-(* held/spare: the exon sequence held and its spare capacity; last: the     *)
-(* last call and its outcome.                                               *)
+(*   "gene"  the update machine on a gene (SetFeatures)                     *)
+(* held/spare: the exon sequence held and its spare capacity (gene: the     *)
+(* features held); glen: the length of the gene; last: the last call and    *)
+(* its outcome.                                                             *)
 (***************************************************************************)
-VARIABLES kind, cs, held, spare, last
-vars == <<kind, cs, held, spare, last>>
+VARIABLES kind, cs, held, spare, last, glen
+vars == <<kind, cs, held, spare, last, glen>>
 
 NoCall == [call |-> "none"]
 
 CaseInit ==
-  /\ held = <<>> /\ spare = 0 /\ last = NoCall
+  /\ held = <<>> /\ spare = 0 /\ last = NoCall /\ glen = 0
   /\ \/ kind = "args" /\ kind \in Kinds /\ cs \in IncSeqs(Universe(L, {0, 1}), MaxArgs)
      \/ kind = "cut" /\ kind \in Kinds /\ cs \in UNION {{[n |-> n, xs |-> c] : c \in Cuts(n)} : n \in 1..L}
      \/ kind = "utr" /\ kind \in Kinds
@@ -262,7 +314,7 @@ CaseInit ==
      \/ kind = "conv" /\ kind \in Kinds /\ cs \in -20..20
 
 MachineInit ==
-  /\ kind \in Kinds \cap {"bare", "tr"} /\ cs = 0 /\ held = <<>> /\ last = NoCall
+  /\ kind \in Kinds \cap {"bare", "tr", "gene"} /\ cs = 0 /\ held = <<>> /\ last = NoCall /\ glen = 0
   /\ spare \in IF kind = "bare" THEN 0..MaxSpare ELSE {0}
 
 Init == CaseInit \/ MachineInit
@@ -290,15 +342,24 @@ DoSet(xs) ==
      /\ held' = new
      /\ spare' \in IF err = "" THEN 0..MaxSpare ELSE {spare}
 
+\* every argument list of at most MaxFeats features, in every order, with repetitions
+GeneUniverse == {x \in (0..(LG - 1)) \X (0..LG) \X {0, 1} : x[1] + x[2] <= LG}
+GeneArgs == UNION {[1..k -> GeneUniverse] : k \in 0..MaxFeats}
+
+DoSetFeatures(fs) ==
+  LET r == SetFeaturesRet(held, glen, fs)
+  IN /\ last' = [call |-> "setfeatures", before |-> held, lenbefore |-> glen, xs |-> fs, err |-> r.err]
+     /\ held' = r.feats /\ glen' = r.len /\ spare' = spare
+
 \* A call is made from a state whose last call has been forgotten; the state after a call
 \* remembers it (so that the laws below can speak about it) and can only forget it.  What
 \* a call does depends on (held, spare) only, so all histories of any length are covered.
 Next ==
-  /\ kind \in {"bare", "tr"}
+  /\ kind \in {"bare", "tr", "gene"}
   /\ UNCHANGED <<kind, cs>>
-  /\ IF last.call = "none"
-       THEN \E xs \in HistArgs : DoAdd(xs) \/ DoSet(xs)
-       ELSE last' = NoCall /\ UNCHANGED <<held, spare>>
+  /\ IF last.call # "none" THEN last' = NoCall /\ UNCHANGED <<held, spare, glen>>
+     ELSE IF kind = "gene" THEN \E fs \in GeneArgs : DoSetFeatures(fs)
+     ELSE (\E xs \in HistArgs : DoAdd(xs) \/ DoSet(xs)) /\ UNCHANGED glen
 
 Spec == Init /\ [][Next]_vars
 
@@ -408,6 +469,22 @@ HeldContract ==
 DeadBranch == Machine => last.err # ErrNewLoc
 
 (***************************************************************************)
+(* Laws of the gene machine                                                 *)
+(***************************************************************************)
+GeneMachine == kind = "gene" /\ last.call # "none"
+\* SetFeatures accepts exactly the acceptable argument lists
+GeneAcceptedIffAcceptable == GeneMachine => ((last.err = "") <=> GeneAcceptable(last.xs))
+\* a rejected SetFeatures leaves the features AND the bounds of the gene exactly as they were
+GeneRejectedAtomic == GeneMachine /\ last.err # "" => held = last.before /\ glen = last.lenbefore
+\* an accepted one holds its arguments as given; the gene reaches to the largest end
+GeneAcceptedResult ==
+  GeneMachine /\ last.err = "" =>
+    /\ held = last.xs /\ glen = GeneEnd(last.xs)
+    /\ \A i \in 1..Len(held) : EndOf(held[i]) <= glen
+\* after any history the bounds of the gene agree with the features it retains
+GeneBoundsAgree == kind = "gene" => GeneAgrees(held, glen) /\ glen = GeneEnd(held)
+
+(***************************************************************************)
 (* Emission of the cases for the Go driver (one JSON object per line)       *)
 (***************************************************************************)
 Out(v) == Serialize(ToJson(v) \o "\n", IOEnv.OUT,
@@ -418,6 +495,7 @@ EmitCases ==
     [] kind = "utr" -> Out([op |-> "utr", len |-> cs.len, cs |-> cs.cs, ce |-> cs.ce, chain |-> cs.chain])
     [] kind = "chain" -> Out([op |-> "map", chain |-> cs.chain, pos |-> cs.pos])
     [] kind = "conv" -> Out([op |-> "conv", p |-> cs])
+    [] kind = "gene" -> last.call = "none" \/ Out([op |-> "gcall", before |-> last.before, xs |-> last.xs])
     [] OTHER -> last.call = "none" \/
                 Out([op |-> "call", holder |-> kind, call |-> last.call, before |-> last.before,
                      spare |-> last.spare, xs |-> last.xs])
